@@ -694,6 +694,11 @@ static void f_random(void) {
     case 2: ns = 63; for (size_t j = 0; j < ns; j++) script[j] = 1; break;
     default: ns = 1 + h_below(40); for (size_t j = 0; j < ns; j++) script[j] = (unsigned char)(1 + h_below(9)); script[h_below((uint32_t)ns)] = 0; break;
   }
+  if (b.n > 3000) {                       /* the model's read is linear in what is left: keep the number of reads of a long stream small */
+    bufsize = h_below(2) ? 1024 : 64 + (int)h_below(4000);
+    for (size_t j = 0; j < ns; j++) if (script[j]) script[j] = (unsigned char)(script[j] | 128);
+    if (ns > 8) ns = 8;
+  }
   f_case(tbl, bufsize, script, ns, b.p, b.n);
 }
 
